@@ -115,7 +115,7 @@ def make(n, kinds, jobs_hi, orders="rev", launch=True, signals=True, stop_early_
                     g.require(not late, "stopearly:task-started-after-failure",
                               "spawn %s after the first failure was observed at t=%s; %s" % (late, t_fail, D))
                     for p in k.tasks():
-                        if p.state == "run":
+                        if p.t_spawn < t_fail and (p.t_exit is None or p.t_exit > t_fail):
                             g.require(any(sig == int(_signal.SIGTERM) for _, sig in p.killed), "stopearly:running-task-not-terminated",
                                       "%s still running after stop-early and never sent SIGTERM; %s" % (p, D))
                             g.goal("stop-early with a task still running")
